@@ -76,8 +76,8 @@ CLAIMED = {
         note="Trusted: Lean kernel + standard axioms, translate_natives.py (text scan of native bodies), harness workers; host panics and memory faults are runtime behaviour: the model predicts where they cannot happen, the streams search for the rest; many genuine crashes are known findings",
         technique="Lean 4 decide-over-generated-table proofs + signature-check soundness + native matrix and recursion streams"),
     "C17": dict(
-        text="Lean theorems on the import state machine: for every acyclic module graph and every order/multiplicity/form of imports each body starts at most once and has completed before its importer continues, export tables and import objects are exactly the export declarations, non-exported names and missing modules give the import error, the loader never reaches todo!/unwrap (repaired walk: all path lengths); generated multi-file programs judged by a run-once Spec and the exact model",
-        note="Trusted: Lean kernel + standard axioms, hand-written import model (tied by the multi-file stream), harness; termination of every run (C17_full) not proved",
+        text="Lean theorems on the import state machine: for every acyclic module graph and every order/multiplicity/form of imports each body starts at most once and has completed before its importer continues, export tables and import objects are exactly the export declarations, non-exported names and missing modules give the import error, the loader never reaches todo!/unwrap (all path lengths), the package map is constant, `std.p` is the library module or an import error and any other package an import error whatever user modules are called, `self.p` is the file of path p with its body completed (D25-module-shadows-package and DC17.1 repaired in /repo; package writes and the library tree tied by generated rows); generated multi-file programs judged by a run-once Spec and the exact model",
+        note="Trusted: Lean kernel + standard axioms, hand-written import model (tied by the multi-file stream), harness; termination of every run (C17_full) not proved; open finding DC17.2 (a completing child fiber wakes an importer whose module body is still parked)",
         technique="Lean 4 invariant proofs over the import machine + multi-file program stream"),
     "C19": dict(
         text="Lean theorems on the REPL compile loop: symbols persist to the same slot across entries, a failing compile changes nothing, a whole session's property and invoke cache ids are consecutive, disjoint and inside vectors that only grow (C19_full holds: D13 repaired in /repo, the old restarted numbering kept as a regression fact); generated sessions run through Vm::repl vs the concatenated module, incl. functions with cache sites defined in one entry and called from later ones, plus a compile-log tie of module slots and cache ids read back from the encoded bytes",
